@@ -136,8 +136,30 @@ func ruleC13(c *Ctx) {
 	c.RequireOrder("order", rc, "(*protocol/state.UtxoViewpoint).ApplyBlock", "(*protocol.Chain).setState")
 	c.RequireCall(R, src, true, "(*protocol.Chain).setState")
 
+	// unsigned arithmetic of the consensus predicates cannot wrap: every x - y on unsigned values in
+	// package protocol/validation is ordered by a dominating comparison
+	var vfns []*ssa.Function
+	for f := range c.allFuncs() {
+		p := f.Pkg
+		g := f
+		for p == nil && g.Parent() != nil {
+			g = g.Parent()
+			p = g.Pkg
+		}
+		if p != nil && trimMod(p.Pkg.Path()) == pVal && len(f.Blocks) > 0 {
+			vfns = append(vfns, f)
+		}
+	}
+	c.RequireOrderedUsub("usub", vfns, map[string]string{})
+	nsub := 0
+	for _, f := range vfns {
+		nsub += len(usubScan(f))
+	}
+	c.Ob("usub", "unsigned subtractions of package protocol/validation examined", true, false, "%d subtraction(s) in %d functions", nsub, len(vfns))
 	c.Floor(G, 20)
 	c.Floor(R, 14)
 	c.Floor("order", 4)
 	c.Floor("dataflow", 4)
 }
+
+
